@@ -212,7 +212,8 @@ func init() {
 			m := tierScale(tier, 60)
 			return []core.Segment{{Kind: "corpus:buffer", N: 1640}, {Kind: "buffer", N: 12000 * m}, {Kind: "corpus:decoder", N: 820}, {Kind: "decoder", N: 8000 * m},
 				{Kind: "big:buffer", N: 42 * m, Chunk: 3}, {Kind: "big:decoder", N: 42 * m, Chunk: 3}, {Kind: "faulty:decoder", N: 5000 * m},
-				{Kind: "runs:buffer", N: 2000 * m}, {Kind: "runs:decoder", N: 1500 * m}}
+				{Kind: "runs:buffer", N: 2000 * m}, {Kind: "runs:decoder", N: 1500 * m},
+				{Kind: "bigtight:buffer", N: 30 * m, Chunk: 3}, {Kind: "bigtight:decoder", N: 60 * m, Chunk: 3}}
 		},
 		genC: func(r *rand.Rand, kind string, idx int64, tier string) DCase {
 			class, sut := splitKind(kind)
@@ -221,6 +222,9 @@ func init() {
 			}
 			if class == "runs" {
 				return runsDCase(r, sut)
+			}
+			if class == "bigtight" {
+				return tightDCase(r, sut)
 			}
 			w, b := geometry(r, idx)
 			g := &DGen{SUT: sut, W: w, B: b, N: 40 + r.Intn(40), MaxItem: 2 + r.Intn(2*b), BigItems: r.Intn(3) == 0}
@@ -467,6 +471,60 @@ func wrapDCase(r *rand.Rand, sut string, idx int64) DCase {
 		}
 		ops = append(ops, op)
 		ops = append(ops, DOp{K: "write", Data: genLits(r, 1+r.Intn(8))})
+	}
+	if sut == "decoder" {
+		ops = append(ops, DOp{K: "flush"})
+	}
+	return DCase{WS: w, BS: b, SUT: sut, Ops: ops}
+}
+
+// tightDCase: windows of 4-70 kB with buffers smaller than twice the window
+// (BufferSize-WindowSize from 1 byte to WindowSize-1), writes of every size
+// up to the window - in particular larger than BufferSize-WindowSize but
+// smaller than the window - each followed by matches at the far end of the
+// window: everything of the last WindowSize bytes must stay addressable
+// whatever route the data took into the buffer.
+func tightDCase(r *rand.Rand, sut string) DCase {
+	w := []int{4097, 5000, 8190, 12000, 20000, 65528, 70000}[r.Intn(7)]
+	b := w + 1 + r.Intn(w-1)
+	switch r.Intn(4) {
+	case 0:
+		b = w + 1 + r.Intn(64)
+	case 1:
+		b = w + w/8 + r.Intn(w/2)
+	}
+	free := b - w
+	var ops []DOp
+	ops = append(ops, DOp{K: "write", Data: genLits(r, 1+r.Intn(w))})
+	for len(ops) < 24 {
+		n := 1 + r.Intn(w)
+		switch r.Intn(5) {
+		case 0:
+			n = free + 1 + r.Intn(w-free)
+		case 1:
+			n = 4096 + r.Intn(w-4095)
+		case 2:
+			n = 1 + r.Intn(free)
+		}
+		if r.Intn(3) == 0 {
+			// the literals travel as trailing literals of a block
+			ops = append(ops, DOp{K: "block", Data: genLits(r, n)})
+		} else {
+			ops = append(ops, DOp{K: "write", Data: genLits(r, n)})
+		}
+		m := 1 + r.Intn(300)
+		if m > free {
+			m = free
+		}
+		seq := DSeq{M: uint32(m), OK: []int{2, 2, 3, 4}[r.Intn(4)], O: uint32(r.Intn(1 << 20))}
+		if sut == "buffer" {
+			ops = append(ops, DOp{K: "read", N: r.Intn(b + 1)}, DOp{K: "match", Seqs: []DSeq{seq}})
+		} else {
+			ops = append(ops, DOp{K: "block", Seqs: []DSeq{seq}})
+			if r.Intn(4) == 0 {
+				ops = append(ops, DOp{K: "flush"})
+			}
+		}
 	}
 	if sut == "decoder" {
 		ops = append(ops, DOp{K: "flush"})
